@@ -558,3 +558,32 @@ Theorem C11_RenameKey_code_no_panic : forall pf st mv path newName, g_fieldSep s
   fn_RenameKey (run_Exists pf st) (run_parentPath st) (run_renameKey st) st mv path newName <> Crash.
 Proof. exact RenameKey_code_no_panic. Qed.
 Print Assumptions C11_RenameKey_code_no_panic.
+
+(* ---- Map.SetValueForPath itself (set.go), translated from the current sources in write-back mode: mv.ValueForPath(parentPath)
+   is the lens the model prescribes (the first value values_for_path_loc locates, with the function that puts a new value at its
+   position in the receiver); proved equal to the functional model [set_value_for_path] the theorems above are stated with
+   (GenProofs/PureG23.v), together with the lens laws on Go maps (distinct keys) *)
+From Mxj Require Import GenProofs.PureG23.
+
+Theorem C11_SetValueForPath_code_is_model : forall st mv value path,
+  fn_SetValueForPath vfp_lens st mv value path
+  = match set_value_for_path (VMap mv) value path with
+    | Ok (VMap m') => Ret (None, m') | Ok _ => Crash | Err e => Ret (Some e, mv) | Panic => Crash end.
+Proof. exact set_value_for_path_code_is_model_map. Qed.
+Print Assumptions C11_SetValueForPath_code_is_model.
+
+Theorem C11_SetValueForPath_code_no_crash : forall st mv value path,
+  fn_SetValueForPath vfp_lens st mv value path <> Crash.
+Proof. exact set_value_for_path_code_no_crash. Qed.
+Print Assumptions C11_SetValueForPath_code_no_crash.
+
+Theorem C11_vfp_lens_get_put : forall mv path v put,
+  wfb (VMap mv) = true -> vfp_lens mv path = Ok (v, put) -> put v = mv.
+Proof. exact vfp_lens_get_put. Qed.
+Print Assumptions C11_vfp_lens_get_put.
+
+Theorem C11_vfp_lens_spec : forall mv path v put,
+  wfb (VMap mv) = true -> vfp_lens mv path = Ok (v, put) ->
+  exists p, get_at p (VMap mv) = Some v /\ forall x, put x = entries_of (update_at p x (VMap mv)).
+Proof. exact vfp_lens_spec. Qed.
+Print Assumptions C11_vfp_lens_spec.
